@@ -470,3 +470,35 @@ V('c08-benign-visit-early-insert', 'C08', 'silent', (HD, '''        if sort_data
             return;
         }
 '''))
+
+# ---- C09
+V('c09-manual-restore', 'C09', 'C09.R1', (HRc, '''        let _guard = CellGuard::replace(rec, None);
+        f()''', '''        let old = rec.replace(None);
+        let res = f();
+        rec.set(old);
+        res'''))
+V('c09-record-guard-dropped-early', 'C09', 'C09.R1', (HRc, '''        let _guard = CellGuard::replace(rec, Some(NonNull::from(&mut record)));
+        let result = f();''', '''        let guard = CellGuard::replace(rec, Some(NonNull::from(&mut record)));
+        drop(guard);
+        let result = f();'''))
+V('c09-guard-forgotten', 'C09', 'C09.R1', (HRc, '''        let _guard = CellGuard::replace(rec, None);
+        f()''', '''        let guard = CellGuard::replace(rec, None);
+        let res = f();
+        std::mem::forget(guard);
+        res'''))
+V('c09-drop-restores-nothing', 'C09', 'C09.R1', (HRc, '''        self.cell.set(self.val);''', '''        let _ = self.val;'''))
+V('c09-wrap-unwraps', 'C09', 'C09.R2', (U, '''    param.unwrap_or_else(sync::PoisonError::into_inner)''', '''    param.unwrap()'''))
+V('c09-graph-updated-on-failure', 'C09', 'C09.R3', (HD, '''                if let Some(new_deps) = new_deps {
+                    self.insert(Dependency::Asset(key), new_deps, typ);
+                }''', '''                let new_deps = new_deps.unwrap_or_else(Dependencies::empty);
+                self.insert(Dependency::Asset(key), new_deps, typ);'''))
+V('c09-initial-load-swallows-panic', 'C09', 'C09.R4', ('src/asset.rs', '''    (typ.inner.load)(cache, id)
+}''', '''    let id2 = id.clone();
+    std::panic::catch_unwind(std::panic::AssertUnwindSafe(|| (typ.inner.load)(cache, id)))
+        .unwrap_or_else(|_| Err(Error::new(id2, "panicked".into())))
+}'''))
+V('c09-benign-guard-named', 'C09', 'silent', (HRc, '''        let _guard = CellGuard::replace(rec, None);
+        f()''', '''        let restore_on_exit = CellGuard::replace(rec, None);
+        let res = f();
+        drop(restore_on_exit);
+        res'''))
